@@ -94,6 +94,7 @@ type Outcome struct {
 	Final    string // state of the destination at the end
 	Gets     int
 	Leftover []string
+	Polling  bool // the horizon was reached by code that sleeps and retries: undecided, not a livelock verdict
 }
 
 // Run executes one scenario on scheduler s below root (a fresh directory) and checks it.
@@ -151,6 +152,9 @@ func Run(s *vs.Sched, sc Scenario, root string) Outcome {
 	}
 	s.Run()
 	o := Outcome{Failure: s.Failure, Deadlock: s.Deadlock, Horizon: s.Horizon, Gets: vhttp.Gets}
+	if o.Horizon && vtime.Sleeps > 20 {
+		o.Horizon, o.Polling = false, true
+	}
 	for i, e := range errs {
 		switch {
 		case !returned[i]:
@@ -161,7 +165,7 @@ func Run(s *vs.Sched, sc Scenario, root string) Outcome {
 			o.Errs = append(o.Errs, "error")
 		}
 	}
-	if o.Failure == "" && !o.Deadlock && !o.Horizon {
+	if o.Failure == "" && !o.Deadlock && !o.Horizon && !o.Polling {
 		_, err := os.Lstat(dst)
 		switch {
 		case err != nil:
